@@ -39,4 +39,30 @@ def c10(prop, tier, res, replay=None):
         "path.Clean, url query parsing and header canonicalisation are net/http's; the model receives the cleaned path and parsed maps"], replay)
 
 
-TABLE = {"C06": c06, "C16": c16, "C10": c10}
+AUTH = dict(sub="auth", mode="auth", family="auth", shards=q(4, 16),
+            args=lambda tier, sd, sh: ["-seed", sd * 1000 + sh, "-configs", 40 if tier == "quick" else 400, "-requests", 70 if tier == "quick" else 120],
+            key_fields=["k", "kind", "scenario", "now", "nonce"])
+SIGNING = dict(sub="signing", mode="signing", family="signing", shards=q(2, 16),
+               args=lambda tier, sd, sh: ["-seed", sd * 1000 + sh, "-n", 500 if tier == "quick" else 4000],
+               key_fields=["k", "mode", "now", "escapedPath"], class_clauses={"redirect-hop-signature-stale"})
+
+AUTH_ASSUME = [
+    "HMAC-SHA256 unforgeability is a cryptographic assumption; the theorems hold for every keyed function mac, the driver instantiates it with a Lean SHA-256/HMAC independent of Go's crypto",
+    "requests are constructed http.Request values through the real ingress handler wired to the real runtime state (config text -> parser -> compiler -> loadAuth); clock injected; signed timestamps |ts| < 10^12 s",
+    "C09 reading: a nonce is rejected while the window of the request that introduced it (signed time + tolerance) is open - i.e. a captured request can never be accepted twice; re-use of a nonce with a fresh timestamp after that window is not remembered (unbounded memory)"]
+
+
+def c08(prop, tier, res, replay=None):
+    return pure.check_cases(prop, tier, res, [AUTH], AUTH_ASSUME, replay)
+
+
+def c09(prop, tier, res, replay=None):
+    return pure.check_cases(prop, tier, res, [AUTH], AUTH_ASSUME, replay)
+
+
+def c17(prop, tier, res, replay=None):
+    return pure.check_cases(prop, tier, res, [SIGNING, AUTH], AUTH_ASSUME + [
+        "outbound: real HTTPDeliverer.Deliver against an httptest target capturing headers and body, clock on every window boundary +-1 ns / +-1 s"], replay)
+
+
+TABLE = {"C06": c06, "C16": c16, "C10": c10, "C08": c08, "C09": c09, "C17": c17}
